@@ -15,7 +15,7 @@ RULE = ("E1: DirHash - summary = lines (digest, two spaces, name, newline) sorte
 def run(ctx):
     ctx.build_harness()
     q = ctx.quick()
-    gen_and_replay(ctx, "dirhash", "DirHashGen", "DirHashGen_3" if q else "DirHashGen_4", floor=1000, workers=16, timeout=3000)
+    gen_and_replay(ctx, "dirhash", "DirHashGen", "DirHashGen_3" if q else "DirHashGen_4", floor=1000, workers=16, timeout=3000, xss="512m")
     record_and_validate(ctx, "dirhash", "DirHashTrace", "DirHashTrace", 4000 if q else 60000, shards=8)
     zipcheck.scratch(ctx)
     gen_and_replay(ctx, "modzip", "ModZipGen", "ModZipGen_files_small2" if q else "ModZipGen_files_full2", floor=1000, workers=16, timeout=3000, xss="256m")
